@@ -97,16 +97,21 @@ def c03():
         id="C03", level="fault_enumeration", engine="rtrsim",
         builds=[_sim_build()],
         runs=[_sim_run("defect", 7200, 108000), _sim_run("conv", 2500, 60000), _sim_run("faults", 3072, 61440),
-              _sim_run("reload", 400, 8000)],
+              _sim_run("reload", 400, 8000),
+              dict(name="rollback-under-allocation-failure", bin="rtrsim", config="asan", mode="allocsync", args=["undo_only=1"],
+                   cases=T(1024, 16384), timeout=2400, chunks=32)],
         floors={"c03/exchanges_judged_success": T(50000, 500000), "c03/exchanges_judged_failure": T(5000, 50000),
-                "sim/other_source_checks": T(50000, 500000)},
+                "sim/other_source_checks": T(50000, 500000), "c18/sync/runs_with_injected_failure": T(900, 14000)},
         rule=(SIM_RULE_COMMON + "Oracle per exchange: snapshot B of the socket's records (both tables, by source) when the query "
               "is sent; a reference validator walks the response bytes as emitted and decides well-formedness and apply(B,R) "
               "sequentially per record identity. Client went ESTABLISHED: response must be valid, records == apply(B,R), stored "
               "session/serial == End of Data's. Otherwise (judged at the next query / open / stop): records == B and the next query "
               "is the previous one, or records are all gone and the next query is a Reset Query. Records of two other sources that "
               "overlap the cache's data must never change. Non-trivial = a judged exchange; distinct by hash of (B, result, defect, "
-              "position) plus the state-trace hash of every scenario."),
+              "position) plus the state-trace hash of every scenario. rollback-under-allocation-failure: a small conversation whose incremental "
+              "responses fail half way (withdrawal of an unknown record, duplicate announcement) is run once per allocation request k with "
+              "the k-th request failing (counting allocator installed through lrtr_set_alloc_functions) - taking back a withdrawal "
+              "allocates, so the rollback itself is made to fail at every one of its steps; same oracle."),
         assumptions=SIM_ASSUME,
     )
 
@@ -341,9 +346,9 @@ def c18():
         id="C18", level="fault_enumeration", engine="tabmon+rtrsim",
         builds=[_tab_build(), _sim_build()],
         runs=[_tab_run("allocpfx", 480, 9600), _tab_run("allocspki", 160, 3200),
-              dict(name="allocsync", bin="rtrsim", config="asan", mode="allocsync", cases=T(1024, 16384), timeout=2400, chunks=64,
+              dict(name="allocsync", bin="rtrsim", config="asan", mode="allocsync", cases=T(2048, 16384), timeout=2400, chunks=64,
                    remap_props={"C03": "C18"})],
-        floors={"c18/runs_with_injected_failure": T(15000, 300000), "c18/sync/runs_with_injected_failure": T(900, 14000),
+        floors={"c18/runs_with_injected_failure": T(15000, 300000), "c18/sync/runs_with_injected_failure": T(1900, 14000),
                 "c18/pfx/leak_checks": T(400, 8000), "c18/spki/leak_checks": T(100, 2000), "c18/sync/leak_checks": T(20, 300),
                 "c18/pfx/validate_hit_by_failure": T(500, 10000)},
         rule=("A counting / failing allocator is installed through the public lrtr_set_alloc_functions(); every block carries a header "
